@@ -88,6 +88,23 @@ def mk_alias_case(routine, et, pbuf, la, lb, params="", **kw):
     return c
 
 
+def plan_of(case, k):
+    """Coq term for ndarray's summation order over operand k.  The order is computed INSIDE Coq by the model of
+    ndarray's is_contiguous / as_slice_memory_order / rows (Num/Layout.v) from the shape and strides the harness
+    OBSERVED on the real view; the Python mirror (vplib/plans.py) is only cross-checked against that observation
+    and used when a result carries no layout section."""
+    from ..plans import sum_plan, plan_term, view_strides
+    lays = (case.obs or {}).get("lays") or []
+    lay = case._lays[k]
+    if k < len(lays):
+        shape, strides = lays[k]
+        mine = view_strides(lay)
+        if shape != lay.shape() or any(d > 1 and a != b for d, a, b in zip(shape, strides, mine)):
+            raise RuntimeError("layout mirror disagrees with ndarray: %s %s vs %s %s" % (shape, strides, lay.shape(), mine))
+        return "(sum_plan_of (mkL [%s] [%s]))" % (";".join(map(str, shape)), ";".join("(%d)" % x for x in strides))
+    return plan_term(sum_plan(lay))
+
+
 def parse_num(case):
     raw = case.raw
     secs = [s.split() for s in raw.split("|")]
@@ -95,7 +112,12 @@ def parse_num(case):
     if head[0] == "OK":
         shape = [int(x) for x in head[2:]]
         vals = [canon_nan(getattr(case, "out_et", case.et), int(x)) for x in secs[1][1:]]
-        case.obs = dict(tag="OK", shape=shape, vals=vals)
+        lays = []
+        for sec in secs[2:]:
+            if sec[:1] == ["L"]:
+                nd = int(sec[1])
+                lays.append(([int(x) for x in sec[2:2 + nd]], [int(x) for x in sec[2 + nd:2 + 2 * nd]]))
+        case.obs = dict(tag="OK", shape=shape, vals=vals, lays=lays)
     elif head[0] == "ERR":
         if head[1] == "E":
             case.obs = dict(tag="ERR", kind="E")
